@@ -225,7 +225,6 @@ class SampledData(BinwiseData):
             self.binning.copy(),
             self.data + other.data,
             self.samples + other.samples,
-            closed=self.closed,
         )
 
     def __sub__(self, other: Any) -> TypeSampledData:
